@@ -24,6 +24,20 @@ func tgNew0() tgI      { return tgMake(0) }
 func tgNew1() tgI      { return tgMake(1) }
 func tgNew2() tgI      { return tgMake(2) }
 
+// tgNest is registration 2 in its nested form: a member of g1 that itself
+// consumes group g2 (same element type).
+type TgNestIn struct {
+	godi.In
+	Inner []tgI `group:"g2"`
+}
+
+var tgNestGot [][]tgI
+
+func tgNew2Nested(in TgNestIn) tgI {
+	tgNestGot = append(tgNestGot, in.Inner)
+	return tgMake(2)
+}
+
 type TgIn struct {
 	godi.In
 	G1 []tgI `group:"g1"`
@@ -42,13 +56,28 @@ func newTgProbe(in TgIn) *TgProbe { return &TgProbe{In: in} }
 // different groups sit at equal positions, so anything keyed by (type,
 // position) alone would mix them up.
 func H_TwoGroups() {
-	tgCalls, tgSeq = [3]int{}, 0
+	tgCalls, tgSeq, tgNestGot = [3]int{}, 0, nil
 	ctors := []any{tgNew0, tgNew1, tgNew2}
+	// nested=1: registration 2, a member of g1, consumes group g2 (whose members
+	// are then among registrations 0 and 1): resolving g1 resolves g2 half-way
+	nested := vrt.Pick("nested", 0, 1)
+	if nested == 1 {
+		ctors[2] = tgNew2Nested
+	}
 	var grp, life [3]int
 	c := godi.NewCollection()
 	for r := 0; r < 3; r++ {
 		grp[r] = vrt.Pick("grp"+string(rune('0'+r)), 0, 1)
 		life[r] = vrt.Pick("life"+string(rune('0'+r)), 0, 2)
+		if nested == 1 && r == 2 {
+			vrt.Assume(grp[2] == 0)
+			// a member of g1 holding members of g2: not longer-lived than they are
+			for q := 0; q < 2; q++ {
+				if grp[q] == 1 {
+					vrt.Assume(!(life[q] == kit.LScoped && life[2] != kit.LScoped))
+				}
+			}
+		}
 		err := addLife(c, life[r], ctors[r], godi.Group([]string{"g1", "g2"}[grp[r]]))
 		vrt.Assume(err == nil)
 	}
@@ -74,6 +103,7 @@ func H_TwoGroups() {
 	var single [3]*tgS
 	var scoped [2][3]*tgS
 	seen := map[*tgS]bool{}
+	occurrences := map[*tgS]int{} // every place a transient instance was handed out to
 	check := func(k, g int, got []tgI, how string) {
 		want := members(g)
 		vrt.Assert(len(got) == len(want), "C04.group_size", how, "node", k, "group", g, "has", len(got), "members, registered", len(want))
@@ -86,6 +116,9 @@ func H_TwoGroups() {
 				continue
 			}
 			x := got[j].tg()
+			if life[x.reg] == kit.LTransient {
+				occurrences[x]++
+			}
 			vrt.Assert(x.reg == r, "C04.wrong_producer", how, "node", k, "group", g, "position", j, "holds an instance built by registration", x.reg, "instead of", r)
 			if x.reg != r {
 				continue
@@ -129,6 +162,28 @@ func H_TwoGroups() {
 			check(k, 1, in.G2, "injected")
 		}
 		direct(k, first)
+	}
+	// what the nested member received for g2: exactly g2's members, in order, each
+	// following its own lifetime rule (bound through the same tables)
+	if nested == 1 {
+		vrt.Cover("nested_resolved")
+		for _, got := range tgNestGot {
+			want := members(1)
+			vrt.Assert(len(got) == len(want), "C04.group_size", "the nested member received", len(got), "members of g2, registered", len(want))
+			for j := 0; j < len(got) && j < len(want); j++ {
+				if got[j] == nil {
+					vrt.Assert(false, "C04.wrong_producer", "nil member inside the nested group")
+					continue
+				}
+				if x := got[j].tg(); life[x.reg] == kit.LTransient {
+					occurrences[x]++
+				}
+				vrt.Assert(got[j].tg().reg == want[j], "C04.wrong_producer", "the nested member's view of g2 holds an instance of registration", got[j].tg().reg, "at position", j, "instead of", want[j])
+			}
+		}
+	}
+	for x, n := range occurrences {
+		vrt.Assert(n == 1, "C03.identity", "a transient instance of registration", x.reg, "was handed out at", n, "places")
 	}
 	// constructor counts: singletons once, scoped once per scope
 	for r := 0; r < 3; r++ {
